@@ -31,6 +31,11 @@ class Namespace(object):
         self.c = consts
         self.cg = None          # the recording CGraph while a program is being traced
 
+    def const(self, c):
+        """a constant that is itself a traced node while recording (a parameter that is not an
+        independent variable); the plain constant otherwise"""
+        return self._a.Function(c) if self.cg is not None else c
+
     def pause(self):
         """suspend recording (no-op when the program runs untraced)"""
         if self.cg is not None:
